@@ -2,7 +2,7 @@
 from ..rules import delivery, flow
 from .common import declare
 
-RULES = ['META-PASS', 'META-FLAT', 'PAIRED-BUFFER', 'META-MEMBERS']
+RULES = ['META-PASS', 'META-FLAT', 'PAIRED-BUFFER', 'META-MEMBERS', 'FRESH-READ']
 FLOORS = {'META-PASS': 10, 'META-FLAT': 20, 'PAIRED-BUFFER': 12}
 
 META = {
@@ -24,3 +24,7 @@ def run(ctx, R):
     flow.check_meta_pass(ctx, R, core)
     flow.check_meta_flat(ctx, R, core)
     delivery.check_paired_buffer(ctx, R, core)
+    delivery.check_fresh_read(ctx, R, core)
+
+
+META['level'] += ' FRESH-READ: the metadata (and data) an emission is built from is read after the last store into its container on the path.'
